@@ -338,3 +338,256 @@ Proof.
   - intros p tc [<-|[<-|[<-|[<-|[<-|[]]]]]] E; injection E as <-; reflexivity.
   - intros p tc [<-|[<-|[<-|[<-|[<-|[]]]]]] E; injection E as <-; reflexivity.
 Qed.
+
+(* ================================================================================================
+   Answers to the referee report design/reviews/C11.md (proofs: Abi/DecTotalProofs8.v, 9.v)
+   ================================================================================================ *)
+From FFS Require Import Abi.DecTotalProofs8 Abi.DecTotalProofs9.
+
+(* I1.  "A returned tree can always be serialised": the serializer model ACCEPTS every decoded tree -
+   the result is Ok, not merely "not Panic" - in every formatting mode the serializer knows, with any
+   value serializers, float serializer, name generator and hash; SerializeJSON returns the wire form
+   of what SerializeInterface returns.  (The model does have Err and Panic outcomes: see the Examples
+   C11_serializer_can_fail below.) *)
+Theorem C11_serializable_ok :
+  forall (c : tcomp) (bs : bytes) (off : Z) (x : cval),
+    tc_wf c = true -> DecodeABIData c bs off = Ok x ->
+    forall (H : bytes -> bytes) (fs : bfloat -> jv) (dn : nat -> bytes) (s : serializer), ts s <> FormatOther ->
+      exists j, SerializeInterface H fs dn s x = Ok j /\ SerializeJSON H fs dn s x = Ok (wire j).
+Proof. exact decoded_serializes. Qed.
+Print Assumptions C11_serializable_ok.
+
+Theorem C11_serializable_calldata_ok :
+  forall (id : bytes) (c : tcomp) (bs : bytes) (x : cval),
+    tc_wf c = true -> DecModel.DecodeCallData id c bs = Ok x ->
+    forall (H : bytes -> bytes) (fs : bfloat -> jv) (dn : nat -> bytes) (s : serializer), ts s <> FormatOther ->
+      exists j, SerializeInterface H fs dn s x = Ok j /\ SerializeJSON H fs dn s x = Ok (wire j).
+Proof. exact decoded_calldata_serializes. Qed.
+Print Assumptions C11_serializable_calldata_ok.
+
+Theorem C11_serializable_event_ok :
+  forall (H : bytes -> bytes) (e : entry) (topics : list bytes) (data : bytes) (x : cval),
+    params_wf (e_inputs e) ->
+    DecodeEventData H DecModel.DecodeABIData DecModel.decode_elementary e topics data = Ok x ->
+    forall (H' : bytes -> bytes) (fs : bfloat -> jv) (dn : nat -> bytes) (s : serializer), ts s <> FormatOther ->
+      exists j, SerializeInterface H' fs dn s x = Ok j /\ SerializeJSON H' fs dn s x = Ok (wire j).
+Proof. exact event_tree_serializes. Qed.
+Print Assumptions C11_serializable_event_ok.
+
+Theorem C11_serializable_revert_ok :
+  forall (H : bytes -> bytes) (a : list entry) (revertData : bytes) (e : entry) (x : cval),
+    (forall e, In e a -> params_wf (e_inputs e)) ->
+    ParseError H DecModel.DecodeABIData a revertData = Ok (Some (e, x)) ->
+    forall (H' : bytes -> bytes) (fs : bfloat -> jv) (dn : nat -> bytes) (s : serializer), ts s <> FormatOther ->
+      exists j, SerializeInterface H' fs dn s x = Ok j /\ SerializeJSON H' fs dn s x = Ok (wire j).
+Proof. exact revert_tree_serializes. Qed.
+Print Assumptions C11_serializable_revert_ok.
+
+(* the guard cannot be dropped: with a formatting mode the serializer does not know, every decoded
+   tree (its root is a tuple node) is refused with the error EUnknownTupleSerializer *)
+Theorem C11_serializable_unknown_mode_is_error :
+  forall (c : tcomp) (bs : bytes) (off : Z) (x : cval), DecodeABIData c bs off = Ok x ->
+    forall (H : bytes -> bytes) (fs : bfloat -> jv) (dn : nat -> bytes) (s : serializer), ts s = FormatOther ->
+      SerializeInterface H fs dn s x = Err EUnknownTupleSerializer /\
+      SerializeJSON H fs dn s x = Err EUnknownTupleSerializer.
+Proof. exact decoded_unknown_mode_is_error. Qed.
+Print Assumptions C11_serializable_unknown_mode_is_error.
+
+(* referee table, row "call data": the entry-level decoder Entry.DecodeCallDataCtx (selector computed
+   from the signature with any 32-byte hash) directly - never panics, and its tree serialises *)
+Theorem C11_entry_calldata :
+  forall (H : bytes -> bytes), (forall x, length (H x) = 32%nat) ->
+  forall (e : entry) (b : bytes), params_wf (e_inputs e) ->
+    EntryModel.DecodeCallData H DecModel.DecodeABIData e b <> Panic /\
+    (forall x, EntryModel.DecodeCallData H DecModel.DecodeABIData e b = Ok x ->
+       forall (H' : bytes -> bytes) (fs : bfloat -> jv) (dn : nat -> bytes) (s : serializer), ts s <> FormatOther ->
+         exists j, SerializeInterface H' fs dn s x = Ok j /\ SerializeJSON H' fs dn s x = Ok (wire j)).
+Proof. exact entry_calldata_total_serializes. Qed.
+Print Assumptions C11_entry_calldata.
+
+(* I6.  The composition inside ErrorString: FormatErrorStringCtx serialises the tree returned by
+   ParseError with the configuration [error_string_serializer] (flat arrays, base-10 integers,
+   0x-prefixed bytes and addresses) and asserts the result to be a []interface{}.  On every tree
+   ParseError returns, that call returns Ok (JArr _): no panic, no error, the assertion holds - so
+   the abstract total [format_args] of C11_total_revert hides no panic. *)
+Theorem C11_revert_format_args_ok :
+  forall (H : bytes -> bytes) (a : list entry) (revertData : bytes) (e : entry) (x : cval),
+    (forall e, In e a -> params_wf (e_inputs e)) ->
+    ParseError H DecModel.DecodeABIData a revertData = Ok (Some (e, x)) ->
+    forall (H' : bytes -> bytes) (fs : bfloat -> jv) (dn : nat -> bytes),
+      exists js, SerializeInterface H' fs dn error_string_serializer x = Ok (JArr js).
+Proof. exact revert_format_args_ok. Qed.
+Print Assumptions C11_revert_format_args_ok.
+
+(* I6.  The refutation of stability for fixed-point leaves stated with a Prop inequality (no appeal
+   to the boolean comparison cval_eqb): the re-encoding decodes, to a different tree *)
+Theorem C11_stable_fixed_refuted_prop :
+  exists (c : tcomp) (bs : bytes) (x : cval) (e : bytes) (x' : cval),
+    tc_wf c = true /\ DecodeABIData c bs 0 = Ok x /\ EncodeABIData x = Ok e /\
+    DecodeABIData c e 0 = Ok x' /\ x' <> x.
+Proof. exact stable_fixed_refuted_prop. Qed.
+Print Assumptions C11_stable_fixed_refuted_prop.
+
+(* I2.  The memory bound in absolute terms.  [bound c n] is at most [bound_coef c * (n+1)^(bound_deg c)]
+   with [bound_deg] = the nesting of dynamic arrays (+1 for a bytes/string leaf) and [bound_coef] a
+   function of the type alone (a fixed array contributes its declared length to the coefficient, not to
+   the degree).  So the units of a decode are bounded by a CONSTANT for a static type and LINEARLY in
+   the data for one dynamic level.  From two nested dynamic levels on there is no absolute cap: see
+   C11_bound_is_not_a_cap and C11_alias_bomb_is_superlinear below. *)
+Theorem C11_bound_polynomial :
+  forall (c : tcomp) (n : N), (bound c n <= bound_coef c * (n + 1) ^ N.of_nat (bound_deg c))%N.
+Proof. exact bound_polynomial. Qed.
+Print Assumptions C11_bound_polynomial.
+
+Theorem C11_alloc_polynomial :
+  forall (c : tcomp) (bs : bytes) (off : Z),
+    tc_wf c = true -> no_zero_size_elem c = true -> 0 <= off ->
+    (alloc (DecodeABIData_c c bs off) <= bound_coef c * (N.of_nat (length bs) + 1) ^ N.of_nat (bound_deg c))%N.
+Proof. exact DecodeABIData_alloc_polynomial. Qed.
+Print Assumptions C11_alloc_polynomial.
+
+Theorem C11_alloc_linear :
+  forall (c : tcomp) (bs : bytes) (off : Z),
+    tc_wf c = true -> no_zero_size_elem c = true -> 0 <= off -> (bound_deg c <= 1)%nat ->
+    (alloc (DecodeABIData_c c bs off) <= bound_coef c * (N.of_nat (length bs) + 1))%N.
+Proof. exact DecodeABIData_alloc_linear. Qed.
+Print Assumptions C11_alloc_linear.
+
+(* ---------- non-vacuity of the answers ---------- *)
+(* the serializer model can fail: it panics on a nil node and on an address of 21 bytes (FillBytes),
+   and returns an error on a node without a component - none of which a decoder returns *)
+Example C11_serializer_can_fail :
+  let S := SerializeInterface (fun _ => []) (fun _ => JNull) (fun _ => []) NewSerializer in
+  let addr := TCElem EAddress [] 160 0 [] in
+  S CVNil = Panic /\
+  S (CV (Some addr) [] (GBigInt (2 ^ 160))) = Panic /\
+  S (CV (Some addr) [] (GString [])) = Panic /\
+  S (CV None [] GNil) = Err EBadABITypeComponent /\
+  is_ok (S (CV (Some addr) [] (GBigInt (2 ^ 160 - 1)))) = true.
+Proof. vm_compute. auto 6. Qed.
+(* the trees returned for an event log (the event of C11_total_event_nonvacuous: raw-topic leaf for
+   the indexed string, decoded uint8, bytes from the data) and for revert data (the two-definition
+   list of C11_alloc_bound_revert_nonvacuous) serialise in all three modes; the revert tree gives a
+   two-entry flat array to FormatErrorStringCtx; an unknown mode is an error *)
+Definition ser_modes : list serializer :=
+  [NewSerializer;
+   {| ts := FormatAsFlatArrays; is_ := HexIntSerializer0xPrefix; bs := Base64ByteSerializer; ad := Some ChecksumAddrSerializer |};
+   {| ts := FormatAsSelfDescribingArrays; is_ := JSONNumberIntSerializer; bs := HexByteSerializer0xPrefix; ad := Some HexAddrSerializerPlain |}].
+Example C11_event_and_revert_trees_serialise :
+  let H0 := fun _ : bytes => repeat x00 32 in
+  let S := fun s x => SerializeJSON H0 (fun _ => JNull) NumericDefaultNameGenerator s x in
+  let ev := mkEntry TyEvent [x45] true
+             [mkParam (Some (tc_of_ty TString)) true; mkParam (Some (tc_of_ty (TUInt 8))) true;
+              mkParam (Some (tc_of_ty TBytes)) false] in
+  let a := [mkEntry TyError [x45] false [mkParam (Some (tc_of_ty (TUInt 256))) false;
+                                          mkParam (Some (tc_of_ty (TDynArr (TUInt 8)))) false]] in
+  let d := repeat x00 4 ++ w 1099511627776 ++ w 64 ++ w 2 ++ w 7 ++ w 8 in
+  match DecodeEventData H0 DecModel.DecodeABIData DecModel.decode_elementary ev [repeat xff 33; w 7] (w 32 ++ w 1 ++ w 0) with
+  | Ok x => forallb (fun s => is_ok (S s x)) ser_modes
+            && is_err (S {| ts := FormatOther; is_ := Base10StringIntSerializer; bs := HexByteSerializer; ad := None |} x)
+  | _ => false
+  end = true /\
+  match ParseError H0 DecModel.DecodeABIData a d with
+  | Ok (Some (_, x)) =>
+      forallb (fun s => is_ok (S s x)) ser_modes
+      && match SerializeInterface H0 (fun _ => JNull) NumericDefaultNameGenerator error_string_serializer x with
+         | Ok (JArr js) => (length js =? 2)%nat
+         | _ => false
+         end
+  | _ => false
+  end = true.
+Proof. vm_compute. auto. Qed.
+(* static types: degree 0, the bound is at most the constant 14 whatever the data (8 units for no data); (uint256[], string): degree 1,
+   at most 7 * (n+1) units; uint256[][][]: degree 3 *)
+Example C11_bound_degrees :
+  let st := tc_of_ty (TTuple [TUInt 256; TFixedArr TAddress 3]) in
+  (bound_deg st, bound_coef st, bound st 0, bound st 65536) = (0%nat, 14%N, 8%N, 14%N) /\
+  (bound_deg ex_ty, bound_coef ex_ty) = (1%nat, 7%N) /\
+  bound_deg (tc_of_ty (TTuple [TDynArr (TDynArr (TDynArr (TUInt 256)))])) = 3%nat.
+Proof. vm_compute. auto. Qed.
+(* NOT an absolute cap: for 64 KiB of data the bound of uint256[][][] is 17 213 448 201 units ... *)
+Example C11_bound_is_not_a_cap :
+  bound (tc_of_ty (TTuple [TDynArr (TDynArr (TDynArr (TUInt 256)))])) 65536 = 17213448201%N.
+Proof. vm_compute. reflexivity. Qed.
+(* ... and the decoder really gets there: with every offset of a level pointing at ONE next-level
+   array ("alias bomb") the decoded tree is the product of the counts.  uint256[][][] with counts
+   10/10/10 in 1 088 bytes requests 2 223 units; counts 20/20/20 in 2 048 bytes request 16 843 units
+   (7.6 times the units for 1.9 times the data).  The same shape at 19 KiB makes pkg/abi allocate
+   2 GB (probe), at 64 KiB some 3e8 nodes: the property's "never exhausts memory" holds only in the
+   relative sense of its last sentence (known finding C11/alias-bomb-superlinear). *)
+Definition rep_bytes (k : nat) (l : bytes) : bytes := concat (repeat l k).
+Definition alias_bomb3 (k : nat) : bytes :=
+  let K := N.of_nat k in
+  w 32 ++ w K ++ rep_bytes k (w (32 * K)) ++ w K ++ rep_bytes k (w (32 * K)) ++ w K ++ rep_bytes k (w 7).
+Example C11_alias_bomb_is_superlinear :
+  let c := tc_of_ty (TTuple [TDynArr (TDynArr (TDynArr (TUInt 256)))]) in
+  (length (alias_bomb3 10), is_ok (fst (DecodeABIData_c c (alias_bomb3 10) 0)), alloc (DecodeABIData_c c (alias_bomb3 10) 0),
+   length (alias_bomb3 20), is_ok (fst (DecodeABIData_c c (alias_bomb3 20) 0)), alloc (DecodeABIData_c c (alias_bomb3 20) 0))
+  = (1088%nat, true, 2223%N, 2048%nat, true, 16843%N).
+Proof. vm_compute. reflexivity. Qed.
+
+(* Referee table, row "quantifier: valid ABI definition".  No model of the type-string parser exists
+   ([tc_wf] is tied to parseABIParameterComponents by reading, and on every run through the harness,
+   which parses the definitions with the real parser).  Proved instead: [tc_wf] is not narrower than the
+   ABI specification's own notion of a valid type - every type well formed per the specification
+   ([wf_ty]) whose fixed-array lengths fit 32 bits (the parser's ParseUint(.., 32)) has a [tc_wf]
+   component tree denoting it, so every theorem above covers every specification-valid type ... *)
+From FFS Require Import Abi.DecTotalProofs10.
+Theorem C11_spec_types_are_covered :
+  forall t : ty, wf_ty t = true -> arr_lens_32 t = true ->
+    tc_wf (tc_of_ty t) = true /\ ty_of (tc_of_ty t) = t.
+Proof. exact spec_types_are_wf. Qed.
+Print Assumptions C11_spec_types_are_covered.
+
+(* ... e.g. totality and serialisability for every list of specification-valid parameter types *)
+Theorem C11_total_spec_types :
+  forall (l : list ty) (bs : bytes) (off : Z),
+    forallb wf_ty l = true -> forallb arr_lens_32 l = true -> 0 <= off ->
+    DecodeABIData (tc_of_ty (TTuple l)) bs off <> Panic /\
+    (forall x, DecodeABIData (tc_of_ty (TTuple l)) bs off = Ok x ->
+       forall (H : bytes -> bytes) (fs : bfloat -> jv) (dn : nat -> bytes) (s : serializer), ts s <> FormatOther ->
+         exists j, SerializeInterface H fs dn s x = Ok j /\ SerializeJSON H fs dn s x = Ok (wire j)).
+Proof.
+  exact (fun l bs off Hw Ha Ho =>
+           let W := proj1 (spec_types_are_wf (TTuple l) Hw Ha) in
+           conj (DecodeABIData_total _ bs off W Ho)
+                (fun x Hx => decoded_serializes _ bs off x W Hx)).
+Qed.
+Print Assumptions C11_total_spec_types.
+
+(* The hypothesis "H returns 32 bytes" of C11_total_revert / C11_entry_calldata discharged for the
+   hash the code uses (Base/Keccak.v: the executable Keccak-256 that RunC11.v runs) *)
+From FFS Require Import Base.Keccak.
+Theorem C11_total_revert_keccak :
+  forall (format_args : cval -> option (list bytes)) (a : list entry) (revertData : bytes),
+    (forall e, In e a -> params_wf (e_inputs e)) ->
+    ParseError keccak256 DecModel.DecodeABIData a revertData <> Panic /\
+    ErrorString keccak256 DecModel.DecodeABIData format_args a revertData <> Panic.
+Proof. exact (revert_total keccak256 keccak256_length). Qed.
+Print Assumptions C11_total_revert_keccak.
+
+Theorem C11_entry_calldata_keccak :
+  forall (e : entry) (b : bytes), params_wf (e_inputs e) ->
+    EntryModel.DecodeCallData keccak256 DecModel.DecodeABIData e b <> Panic /\
+    (forall x, EntryModel.DecodeCallData keccak256 DecModel.DecodeABIData e b = Ok x ->
+       forall (H' : bytes -> bytes) (fs : bfloat -> jv) (dn : nat -> bytes) (s : serializer), ts s <> FormatOther ->
+         exists j, SerializeInterface H' fs dn s x = Ok j /\ SerializeJSON H' fs dn s x = Ok (wire j)).
+Proof. exact (entry_calldata_total_serializes keccak256 keccak256_length). Qed.
+Print Assumptions C11_entry_calldata_keccak.
+(* with the real hash: the revert data of `revert("AB")` - selector 08c379a0 = Keccak-256("Error(string)")[0:4] -
+   is attributed to the built-in Error(string), its tree serialises to a one-entry flat array for
+   FormatErrorStringCtx; cut inside the string (one of its two bytes present) it is "no error matched" (Ok None),
+   not a panic *)
+Example C11_revert_keccak_nonvacuous :
+  let d := [x08; xc3; x79; xa0] ++ w 32 ++ w 2 ++ [x41; x42] ++ repeat x00 30 in
+  match ParseError keccak256 DecModel.DecodeABIData [] d with
+  | Ok (Some (e, x)) =>
+      bytes_eqb (e_name e) (e_name default_error)
+      && match SerializeInterface keccak256 (fun _ => JNull) NumericDefaultNameGenerator error_string_serializer x with
+         | Ok (JArr [JStr s]) => bytes_eqb s [x41; x42]
+         | _ => false
+         end
+  | _ => false
+  end = true /\
+  ParseError keccak256 DecModel.DecodeABIData [] (firstn 69 d) = Ok None.
+Proof. vm_compute. auto. Qed.
